@@ -37,6 +37,7 @@ func genC16(seed uint64, run int, tier string) *Plan {
 		p.Cfg.Store = "file"
 	}
 	p.Cfg.SharedSess = r.IntN(4) == 0
+	p.Cfg.Fine = fineKnob(seed, 15, 3)
 	p.Cfg.CloseAtEnd = r.IntN(2) == 0
 	ntasks := 2 + r.IntN(3)
 	closer := -1
